@@ -253,7 +253,7 @@ def _(case, F):
     return [t], run, False, fy
 
 
-@cell("calc_id:rename", lab="obj")
+@cell("calc_id:rename")
 def _(case, F):
     fy = F(_objrule)
     t, nodes = _build(case, calc=fy)
@@ -268,6 +268,175 @@ def _(case, F):
             raise
 
     return [t], run, False, fy
+
+
+# ---- the data object's own methods in a callback role ---------------------------------------------
+# The default id rule is hash(data) and the default sort key / display name is str(data): a data class whose __hash__ or
+# __str__ raises is "the id calculation" / "the sort key" failing, at the k-th evaluation, without any callback argument.
+def _hooked(case, *, typed=False, fy_hash=None, fy_str=None):
+    from nutree import Tree
+    from nutree.typed_tree import TypedTree
+
+    class H:
+        __slots__ = ("key", "nm")
+
+        def __init__(self, key, nm):
+            self.key, self.nm = key, nm
+
+        def __hash__(self):
+            return fy_hash(self) if fy_hash is not None else hash(("H", self.key))
+
+        def __eq__(self, other):
+            return isinstance(other, H) and other.key == self.key
+
+        def __str__(self):
+            return fy_str(self) if fy_str is not None else self.nm
+
+        def __repr__(self):
+            return f"H({self.key})"
+
+    f = gen.decode(case["f"])
+    rng = rng_for(case.get("seed", 0), "c13h", case["f"])
+    n = gen.size(f)
+    pool = [H(i, "hnZyxwvuts"[i % 10] * (1 + i // 10)) for i in range(max(2, n // 2 + 1))]
+    labs = gen.clone_labeling(rng, f, list(range(len(pool))))
+    if not labs:
+        pool = [H(i, "hnZyxwvuts"[i % 10] * (1 + i // 10)) for i in range(max(2, n))]
+        labs = list(range(n))
+    t = (TypedTree if typed else Tree)("t")
+    nodes = gen.build(t, f, lambda i: pool[labs[i]], kind=(lambda i: "kab"[i % 3]) if typed else None)
+    return t, nodes, H, pool
+
+
+@cell("hash:add")
+def _(case, F):
+    fy = F(lambda o: hash(("H", o.key)))
+    t, nodes, H, pool = _hooked(case, fy_hash=fy)
+    tgt = nodes[len(nodes) // 2] if nodes else t
+    new = H("new", "new")
+    return [t], (lambda: (tgt.add(new), t.add(H("new2", "n2"), before=True), tgt.add(pool[0]) if tgt is not t and not tgt.children else None)), False, fy
+
+
+@cell("hash:set_data")
+def _(case, F):
+    fy = F(lambda o: hash(("H", o.key)))
+    t, nodes, H, pool = _hooked(case, fy_hash=fy)
+    n = nodes[-1] if nodes else t.add(H("q", "q"))
+    return [t], (lambda: n.set_data(H("new", "new"), with_clones=True)), False, fy
+
+
+@cell("hash:find")
+def _(case, F):
+    fy = F(lambda o: hash(("H", o.key)))
+    t, nodes, H, pool = _hooked(case, fy_hash=fy)
+    probe = nodes[0].data if nodes else H(0, "h")
+
+    def run():
+        t.find_all(probe)
+        t.find_first(probe)
+        _ = probe in t
+        _ = H("absent", "x") in t
+        try:
+            t[probe]
+        except (KeyError, LookupError, RuntimeError):
+            pass
+
+    return [t], run, True, fy
+
+
+@cell("hash:from_dict")
+def _(case, F):
+    fy = F(lambda o: hash(("H", o.key)))
+    src, nodes, H, pool = _hooked(case, fy_hash=fy)
+    doc = src.to_dict_list(mapper=lambda node, data: {"k": node.data.key})
+    from nutree import Tree
+
+    tgt = Tree("tgt")
+    top = tgt.add("top")
+    by_key = {o.key: o for o in pool}
+    return [tgt, src], (lambda: top.from_dict(json.loads(json.dumps(doc)), mapper=lambda parent, item: by_key[item["k"]])), False, fy
+
+
+@cell("hash:typed_add_tree")
+def _(case, F):
+    # a typed tree copied into another typed one: the copies keep their ids, the hash may be asked again for the new top nodes
+    fy = F(lambda o: hash(("H", o.key)))
+    src, nodes, H, pool = _hooked(case, typed=True, fy_hash=fy)
+    from nutree.typed_tree import TypedTree
+
+    tgt = TypedTree("tgt")
+    top = tgt.add("top", kind="k")
+    return [tgt, src], (lambda: (top.add(src) if nodes else None, tgt.add(H("z", "z"), kind="a"),
+                                 tgt.add(nodes[0], kind="other", deep=True) if nodes else None)), False, fy
+
+
+@cell("strkey:sort")
+def _(case, F):
+    fy = F(lambda o: o.nm)
+    t, nodes, H, pool = _hooked(case, fy_str=fy)
+    return [t], (lambda: (t.sort(), t.sort(reverse=True, deep=False))), False, fy
+
+
+@cell("strkey:typed_sort_children")
+def _(case, F):
+    fy = F(lambda o: o.nm)
+    t, nodes, H, pool = _hooked(case, typed=True, fy_str=fy)
+    return [t], (lambda: (nodes[0] if nodes else t.system_root).sort_children(deep=True)), False, fy
+
+
+@cell("strkey:readers")
+def _(case, F):
+    # every reader that shows the default name: format, pattern search, the exporters, save without a mapper
+    fy = F(lambda o: o.nm)
+    t, nodes, H, pool = _hooked(case, fy_str=fy)
+
+    def run():
+        t.format()
+        t.format(style="list", repr="{node.name}")
+        t.find_all(match=r".*[nZ].*")
+        t.find_first(match=r"zz-never")
+        list(t.to_dot())
+        t.to_mermaid_flowchart(io.StringIO())
+        if nodes:
+            nodes[0].get_path()
+            nodes[-1].path
+
+    return [t], run, True, fy
+
+
+# ---- an iterable the caller handed in fails while it is consumed ------------------------------------
+class _Lazy:
+    """A children collection that is produced item by item; `tick()` runs (and may raise) before every item."""
+
+    def __init__(self, items, tick):
+        self.items, self.tick = items, tick
+
+    def __bool__(self):
+        return bool(self.items)
+
+    def __len__(self):
+        return len(self.items)
+
+    def __iter__(self):
+        for it in self.items:
+            self.tick()
+            d = dict(it)
+            if d.get("children"):
+                d["children"] = _Lazy(d["children"], self.tick)
+            yield d
+
+
+@cell("iter:node_from_dict")
+def _(case, F):
+    fy = F(lambda: None)
+    src, nodes = _build(case)
+    doc = src.to_dict_list()
+    from nutree import Tree
+
+    tgt = Tree("tgt")
+    top = tgt.add("top")
+    tgt.add("sibling")
+    return [tgt, src], (lambda: top.from_dict(_Lazy(doc, fy))), False, fy
 
 
 # ---- predicate role --------------------------------------------------------------------------
